@@ -9,6 +9,7 @@ package checks
 
 import (
 	"fmt"
+	"io"
 	"net"
 	"os"
 	"path/filepath"
@@ -121,6 +122,58 @@ func c04RealBinary(r *ev.Result, base string) {
 	r.AddDistinct(n)
 	r.Traces += n
 	r.Set("real_binary_successive_shells", n)
+}
+
+// c04RealQuit: the operator leaves (Ctrl+D, Ctrl+C) while a shell is attached
+// whose client keeps both streams open: the program ends them itself and
+// exits; with and without -one-shell (where the listener has been closed by
+// then and the HTTP side is already winding down).
+func c04RealQuit(r *ev.Result, base string) {
+	n := 0
+	for _, flags := range [][]string{nil, {"-one-shell"}} {
+		for _, key := range []string{"\x04", "\x03"} {
+			cls := fmt.Sprintf("%v, key %q", flags, key)
+			v := func(sig, what string) {
+				r.Violate(ev.Violation{Signature: "binary/" + sig, What: fmt.Sprintf("real binary with flags %s: %s", cls, what), Kind: "c04real", Replay: map[string]string{"flags": cls}})
+			}
+			func() {
+				dir, _ := os.MkdirTemp(base, "c04quit-")
+				defer os.RemoveAll(dir)
+				args := append([]string{"-listen-address", "127.0.0.1:0", "-tls-certificate-cache", filepath.Join(dir, "c.txtar")}, flags...)
+				p, addr, err := startReal(dir, args...)
+				if nil != err {
+					ev.Broken("%s", err)
+				}
+				defer p.Close()
+				ci, co, err := realShell(p, addr, "quit", 0)
+				if nil != err {
+					v("shell-refused", err.Error())
+					return
+				}
+				defer ci.Close()
+				defer co.Close()
+				if 0 != len(flags) {
+					/* Give -one-shell the time to close its listener. */
+					p.WaitFor(regexp.MustCompile(`Closing listener|No longer listening|listener`), 0, 3*time.Second)
+				}
+				p.Send(key)
+				if st := p.Wait(30 * time.Second); -1 == st {
+					v("quit-with-shell-attached/does-not-exit", fmt.Sprintf("a shell is attached (its client keeps both streams open); 30 s after the operator pressed the key the program is still running: %s", tail(p.Output(), 300)))
+					return
+				}
+				/* The client's streams have been ended by the program. */
+				ci.C.SetReadDeadline(time.Now().Add(30 * time.Second))
+				if _, err := io.Copy(io.Discard, ci.R); nil != err && strings.Contains(err.Error(), "timeout") {
+					v("quit-with-shell-attached/stream-left-open", "the program has exited but the client's input stream was not ended")
+				}
+				n++
+			}()
+		}
+	}
+	r.Add(n)
+	r.AddDistinct(n)
+	r.Traces += n
+	r.Set("real_binary_quits_with_a_shell_attached", n)
 }
 
 // c06RealBinary: however the program was told where to listen (one address,
